@@ -225,7 +225,35 @@ impl<'c, KD: Kind, const N: usize> MapEng<'c, KD, N> {
         self.after(P10.and(Prop::C01), P12);
     }
 
+    /// `Default` iterators: empty, exact length 0, None forever, `[]` under Debug.
+    fn check_default_iters(cx: &mut Ctx) {
+        use micromap::{IntoIter, IntoKeys, IntoValues, Iter, IterMut, Keys, Values, ValuesMut};
+        macro_rules! empty {
+            ($t:ty, $name:expr) => {{
+                let r = tl::lib(|| {
+                    let mut it: $t = Default::default();
+                    let l0 = (it.len(), it.size_hint());
+                    let n1 = it.next().is_none();
+                    let n2 = it.next().is_none();
+                    (l0, n1 && n2)
+                });
+                cx.chk(P09.and(Prop::C10), r == Ok(((0, (0, Some(0))), true)), "default-iterator", || format!("{}::default() is not an empty exact-size iterator: {r:?}", $name));
+            }};
+        }
+        empty!(Iter<'static, KD::K, KD::V>, "Iter");
+        empty!(IterMut<'static, KD::K, KD::V>, "IterMut");
+        empty!(Keys<'static, KD::K, KD::V>, "Keys");
+        empty!(Values<'static, KD::K, KD::V>, "Values");
+        empty!(ValuesMut<'static, KD::K, KD::V>, "ValuesMut");
+        empty!(IntoIter<KD::K, KD::V, N>, "IntoIter");
+        empty!(IntoKeys<KD::K, KD::V, N>, "IntoKeys");
+        empty!(IntoValues<KD::K, KD::V, N>, "IntoValues");
+    }
+
     pub fn op_walk(&mut self, w: usize, a: u8, b: u8, c: u8) {
+        if c & 0x0f == 0x0f {
+            Self::check_default_iters(self.cx);
+        }
         let liar = self.liar;
         let base = self.newval(0);
         let mut fault = false;
